@@ -1,1 +1,40 @@
-fn main(){}
+//! field-consts: prints, as one JSON object per line, every constant that the field types of
+//! midnight-curves publish through the ff::PrimeField / WithSmallOrderMulGroup<3> API of the CURRENT tree.
+//! Element values are the bytes of `to_repr()` in hex plus the byte order detected from `ONE.to_repr()`.
+use ff::{PrimeField, WithSmallOrderMulGroup};
+
+fn hex(b: &[u8]) -> String {
+    b.iter().map(|x| format!("{:02x}", x)).collect()
+}
+
+fn common<F: PrimeField>(name: &str) -> String {
+    let one = F::ONE.to_repr();
+    let ob = one.as_ref();
+    let order = if ob[0] == 1 { "le" } else if ob[ob.len() - 1] == 1 { "be" } else { "?" };
+    let r = |x: F| hex(x.to_repr().as_ref());
+    format!(
+        "\"type\":\"{}\",\"order\":\"{}\",\"MODULUS\":\"{}\",\"NUM_BITS\":{},\"CAPACITY\":{},\"S\":{},\"ZERO\":\"{}\",\"ONE\":\"{}\",\"TWO_INV\":\"{}\",\"MULTIPLICATIVE_GENERATOR\":\"{}\",\"ROOT_OF_UNITY\":\"{}\",\"ROOT_OF_UNITY_INV\":\"{}\",\"DELTA\":\"{}\"",
+        name, order, F::MODULUS, F::NUM_BITS, F::CAPACITY, F::S, r(F::ZERO), r(F::ONE), r(F::TWO_INV),
+        r(F::MULTIPLICATIVE_GENERATOR), r(F::ROOT_OF_UNITY), r(F::ROOT_OF_UNITY_INV), r(F::DELTA)
+    )
+}
+
+fn with_zeta<F: PrimeField + WithSmallOrderMulGroup<3>>(name: &str) {
+    println!("{{{},\"ZETA\":\"{}\"}}", common::<F>(name), hex(F::ZETA.to_repr().as_ref()));
+}
+
+fn without_zeta<F: PrimeField>(name: &str) {
+    println!("{{{}}}", common::<F>(name));
+}
+
+fn main() {
+    with_zeta::<midnight_curves::Fq>("bls_fq");
+    with_zeta::<midnight_curves::Fp>("bls_fp");
+    without_zeta::<midnight_curves::Fr>("jubjub_fr");
+    with_zeta::<midnight_curves::curve25519::Fp>("c25519_fp");
+    without_zeta::<midnight_curves::curve25519::Scalar>("c25519_scalar");
+    without_zeta::<midnight_curves::k256::Fp>("k256_fp");
+    without_zeta::<midnight_curves::k256::Fq>("k256_fq");
+    with_zeta::<midnight_curves::bn256::Fq>("bn256_fq");
+    with_zeta::<midnight_curves::bn256::Fr>("bn256_fr");
+}
